@@ -1134,6 +1134,17 @@ def minimise_violation(hist, f):
                                  "needs_address_reuse": needs_reuse, "expected": EXPECT[cls], "observed": ff[0]})
 
 
+PINNED_HISTORIES = {
+    "out-view-of-array-held-by-another-graph|del": [["arr", "a0", 0], ["view", "a1", "a0", 0, 0], ["arr", "a2", 0], ["un", "t0", "neg", ("a", 0)],
+                                                     ["out", "t1", "add", ("a", 2), ("a", 2), ("a", 1)], ["del", "t0"]],
+    "out-view-of-array-held-by-another-graph|back": [["arr", "a0", 0], ["view", "a1", "a0", 0, 0], ["arr", "a2", 0], ["un", "t0", "neg", ("a", 0)],
+                                                      ["out", "t1", "add", ("a", 2), ("a", 2), ("a", 1)], ["back", "t0"]],
+    "out-view-sibling-view-held-by-another-graph|clear": [["arr", "a0", 0], ["view", "a1", "a0", 0, 0], ["view", "a3", "a0", 1, 0], ["arr", "a2", 0],
+                                                           ["un", "t0", "neg", ("a", 3)], ["out", "t1", "mul", ("a", 2), ("s", 2), ("a", 1)], ["clear", "t0"]],
+    "out-view-own-operand|back": [["arr", "a0", 0], ["view", "a1", "a0", 0, 0], ["arr", "a2", 0], ["out", "t1", "mul", ("a", 2), ("a", 0), ("a", 1)], ["back", "t1"]],
+}
+
+
 EXPECT = {
     "locked-array-writeable": "every input/output/base/out= target of an op in a live, uncleared graph is read-only",
     "stuck-readonly": "an array no live op refers to has its original (writeable) flag back",
@@ -1254,6 +1265,19 @@ def run(ctx: Ctx) -> Outcome:
             out.corr_breaks.append(CorrBreak("Lock model vs implementation on a _neg witness", {"witness": name, "disagreements": bad[:3]}))
         out.evaluations += 1
     out.extra["neg_witnesses_on_implementation"] = wit
+    # histories run under every seed: an out= target that is a view of an array another live graph holds, that graph
+    # released first (the out= operation must hold its own lock on the base)
+    for name, hist in PINNED_HISTORIES.items():
+        r = run_history(hist)
+        groups = {}
+        for f in r["fails"]:
+            groups.setdefault((f["class"], f["subject"]), f)
+        for f in groups.values():
+            out.violations.append(minimise_violation(hist, f))
+        bad = compare_with_model(r, run_driver(r["lines"]))
+        if bad:
+            out.corr_breaks.append(CorrBreak("Lock model vs implementation on a pinned history", {"history": name, "disagreements": bad[:3]}))
+        out.evaluations += 1
 
     # a corr break: evaluate the predicate on the disagreeing histories again (already done above by the oracle:
     # every history is checked by both).  Lean breakage: targeted search = the same oracle over more histories.
